@@ -563,6 +563,25 @@ def NoAutoClean : Repo → List (Hdr × Bool) → Prop
       Int.tmod ((r.br pb).height + 1) (Facts.autoCleanModulus : Int) ≠ 0) ∧
     NoAutoClean (processHeader r x.1 x.2).1 xs
 
+/-- the same as a computation (to discharge `NoAutoClean` for concrete histories by `decide`). -/
+def noAutoCleanB : Repo → List (Hdr × Bool) → Bool
+  | _, [] => true
+  | r, x :: xs =>
+    (match precheck r x.1 x.2 with
+     | .inr (pb, _, _) => decide (Int.tmod ((r.br pb).height + 1) (Facts.autoCleanModulus : Int) ≠ 0)
+     | .inl _ => true) && noAutoCleanB (processHeader r x.1 x.2).1 xs
+
+theorem noAutoClean_of_B (r : Repo) (hs : List (Hdr × Bool)) (h : noAutoCleanB r hs = true) : NoAutoClean r hs := by
+  induction hs generalizing r with
+  | nil => trivial
+  | cons x xs ih =>
+    simp only [noAutoCleanB, Bool.and_eq_true] at h
+    refine ⟨?_, ih _ h.2⟩
+    intro pb ph lst hp
+    have h1 := h.1
+    rw [hp] at h1
+    simpa using h1
+
 theorem linkWF_submitAll (r : Repo) (hs : List (Hdr × Bool)) (hw : LinkWF r.arena) (hq : NoAutoClean r hs) :
     LinkWF (submitAll r hs).arena := by
   induction hs generalizing r with
